@@ -44,7 +44,7 @@ def replay_generic(ctx, path, drv_name, mode, featureset="default"):
 
 def simple_property(ctx, module, drv_name, mode, oracle_kind, corr_kind, rule, nontrivial_key, scope=None,
                     assumptions=(), featureset="default", leancheck=(), extra_cov=None, classify=None,
-                    exhaustive=False, shrink_prefix=None):
+                    exhaustive=False, shrink_prefix=None, search=None):
     """Standard flow: proof leg, harness build, corpus + generated correspondence, classification, evidence.
     classify(ctx, kind, case_tuple) may return a known-finding entry to downgrade a failure."""
     frag, problems = proof_leg(ctx, module)
@@ -87,6 +87,10 @@ def simple_property(ctx, module, drv_name, mode, oracle_kind, corr_kind, rule, n
                 small = shrink_tokens(drv, mode, op, shrink_prefix, lambda i_, m_, o_: o_ != "ok", os.path.join(ctx.rundir, "shrink"))
             ctx.violation({"kind": oracle_kind, "case": small, "impl": imp, "oracle": verdict, "original_case": op,
                            "failing_cases_in_run": len(fails), "classes": sorted({t[3][:70] for t in fails})[:10]})
+            found_input = True
+        elif mism and search and (hit := search(ctx, drv, mism)):
+            # the correspondence broke and the search found a concrete input on which the property itself fails
+            ctx.violation(hit)
             found_input = True
         elif mism:
             i, op, imp, mod = min(mism, key=lambda t: (len(t[1]), t[1]))
